@@ -281,6 +281,24 @@ def jxtok(t):
     return d
 
 
+TOKPAT_DECLARED = [None, ",", "x*", "", r"[ \t]+", " +", "a"]
+TOKPAT_ARGS = [None, " ", ",", "", "x*", r"[ \t]+"]
+
+
+def tokpat_cases():
+    for i, dec in enumerate(TOKPAT_DECLARED):
+        for j, arg in enumerate(TOKPAT_ARGS):
+            yield {"kind": "tokpat", "declared": dec, "arg": arg, "via": ("file" if (i + j) % 2 else "string"),
+                   "input": cps(["a b,c xx d", "b  a,,x", ""][(i + j) % 3])}
+
+
+def xfloat(txt):
+    try:
+        return float(txt)
+    except ValueError:
+        return None
+
+
 def mk_token(t):
     lnk = None if t["lnk"] is None else Lnk.charspan(t["lnk"][0], t["lnk"][1])
     return YYToken(t["id"], t["start"], t["end"], lnk, t["paths"], uncps(t["form"]),
@@ -305,7 +323,10 @@ def mutate(rng, s):
 class C14(G.C13):
     pid = "C14"
     driver = "Verif/C13/Driver.lean"
-    props_modules = ["Verif.C14.Props", "Verif.C14.PropsMasked", "Verif.C14.Translated", "Verif.C14.TranslatedParts"]
+    props_modules = ["Verif.C14.Props", "Verif.C14.PropsMasked", "Verif.C14.PropsSeg", "Verif.C14.PropsYYX",
+                     "Verif.C14.Translated", "Verif.C14.TranslatedParts"]
+    build_targets = props_modules + ["Verif.C13.Driver", "Verif.C14.Driver"]
+    xdriver = "Verif/C14/Driver.lean"       # C14-only operations (extended YY tokens, pattern choice); see x_answer
     quick_cases = 1100
     thorough_cases = 16000
     KEYS = ("string", "startmap", "endmap", "tokens", "yy", "reparsed")
@@ -324,7 +345,9 @@ class C14(G.C13):
             "with tabs, line ends in every style, non-separator blanks, NUL, BOM, astral and combining characters; an "
             "empty ':' pattern; YY boundary values (spans 0/-1/reversed/beyond 2^63, duplicate and non-ascending paths, "
             "identical tokens, 70-token lattice); extended tokens (several lrules, pos tags) and the dict/list "
-            "interface (oracle only); REPP.from_config on a third of the programs (oracle only). Non-trivial: some "
+            "interface; lrules / tags with blanks, quotes, backslashes and numbers in every float spelling as texts for "
+            "the full-width parser model; 42 combinations of declared ':' pattern x explicit pattern (tokpat); "
+            "REPP.from_config on a third of the programs (oracle only). Non-trivial: some "
             "rule applied or a YY lattice with a token.")
     assumptions = G.C13.assumptions + [
         "provenance is claimed for characters outside all matches (every template) and inside participating groups "
@@ -337,8 +360,12 @@ class C14(G.C13):
         "of masked material plus any of the others, at most %d of those) whose substitution gives the step's output, "
         "and claims a character only where all such subsets agree; which matches are blocked is decided by the "
         "mask model of C13 (correspondence), not by this oracle" % MAX_DIRTY,
-        "tokens with pos tags / several lrules, YYToken.to_dict/from_dict, YYTokenLattice.to_list/from_list/__eq__ "
-        "and REPP.from_config are checked by the direct oracle only (no model)",
+        "tokens with pos tags / several lrules and every yyparse text are compared with the full-width YY model "
+        "(YYX.lean) through the C14 driver, started by this harness when the first such answer is needed; floats are a "
+        "parameter (probabilities travel as the text of f'{p:.4f}' / the text float() is applied to); the pattern "
+        "choice of tokenize / tokenize_result (kind tokpat) is observed by spying on delphin.repp._tokenize",
+        "YYToken.to_dict/from_dict, YYTokenLattice.to_list/from_list/__eq__ and REPP.from_config are checked by the "
+        "direct oracle only (no model)",
     ]
     trusted_base = ["hand-written models lean/Verif/C13/Model.lean and lean/Verif/C14/Model.lean "
                     "(+ Verif/Common/Codec.lean for integers, Lnk and quoted strings), tied to delphin.repp / "
@@ -378,10 +405,22 @@ class C14(G.C13):
         yield from long_input_cases(tier)
         yield from whitespace_cases()
         yield from yy_boundary_cases()
+        yield from tokpat_cases()
         for k in range(24):
             yield gen_yyx_case(rng, k)
         for _ in range(n // 20):
-            yield gen_yyx_case(rng)
+            c = gen_yyx_case(rng)
+            yield c
+            # the same lattice as text, exact and damaged, for the full-width parser model
+            txt = str(YYTokenLattice([mk_xtoken(t) for t in c["tokens"]]))
+            yield {"kind": "yyparse", "s": cps(txt if rng.random() < 0.3 else mutate(rng, txt))}
+        # lrules / tags with blanks, quotes and backslashes (nothing is escaped in these fields), numbers in every
+        # spelling of the float expression and near misses
+        for lr, pos in [('"a b"', ''), ('"a\\"b"', ''), ('"null" "x"  "y"', ', "N N" 0.5'), ('"null"', ', "NN" 1e5 "V" -0.5E-3 "W" 1.5e+2'),
+                        ('"null"', ', "NN" 1. "V" .5'), ('"null"', ', "NN" 0.5 "VB"'), ('"null"', ', "NN" 00.5'),
+                        ('"null"', ', "N\\" 0.5" 0.25'), ('"null"', ',  "NN"\t0.5000\n "VB"  1.0 '), ('"null"\t"q"', ', "NN" 1e400'),
+                        ('"null"', ', "NN" 0.5e'), ('"null"', ', "NN" -0'), ('""', ', "" 0.0')]:
+            yield {"kind": "yyparse", "s": cps('(1, 0, 1, <0:1>, 1, "a", 0, %s%s) (2, 1, 2, 1, "b", 0, "null")' % (lr, pos))}
         k = 0
         while k < n // 8:
             c = G.gen_masked_case(rng)
@@ -424,7 +463,7 @@ class C14(G.C13):
             yield {"kind": "yyparse", "s": cps(mutate(rng, s) if s else "()")}
 
     def search_cases(self, rng, tier, n, seeds):
-        if any(c["kind"] in ("yy", "yyparse", "yyx") for c in seeds):
+        if any(c["kind"] in ("yy", "yyparse", "yyx", "tokpat") for c in seeds):
             for _ in range(n):
                 yield gen_yy_case(rng)
         else:
@@ -450,8 +489,47 @@ class C14(G.C13):
                 "eq_other": [lat == 5, lat != 5, lat == YYTokenLattice(toks + toks[:1]), lat == YYTokenLattice(list(toks))],
                 "noform": noform, "defaults": jxtok(dflt), "default_lnk_falsy": not dflt.lnk}
 
+    def impl_tokpat(self, case):
+        """which pattern reaches the splitting (`_tokenize`) for tokenize(s, pattern=arg) and for
+        tokenize_result(result[, pattern=arg]) on a module with / without a `:` line"""
+        import os
+        import tempfile
+        from delphin import repp as R
+        self.model_request(case)
+        text = ([] if case["declared"] is None else [":" + case["declared"]]) + ["!b\tb"]
+        with warnings.catch_warnings():
+            warnings.simplefilter("ignore")
+            if case["via"] == "file":
+                d = tempfile.mkdtemp(dir=self.tmp)
+                with open(os.path.join(d, "m.rpp"), "w", encoding="utf-8") as f:
+                    f.write("\n".join(text) + "\n")
+                r = R.REPP.from_file(os.path.join(d, "m.rpp"))
+            else:
+                r = R.REPP.from_string("\n".join(text))
+            seen = []
+            orig = R._tokenize
+
+            def spy(result, pattern):
+                seen.append(pattern)
+                return orig(result, pattern)
+            R._tokenize = spy
+            try:
+                s = uncps(case["input"])
+                kw = {} if case["arg"] is None else {"pattern": case["arg"]}
+                lat = r.tokenize(s, **kw)
+                res = r.apply(s)
+                lat2 = r.tokenize_result(res, **kw)
+                r.tokenize(s)                      # the declared / default choice again after an explicit one
+            finally:
+                R._tokenize = orig
+        def forms(lat_):
+            return [t.form for t in lat_.tokens]
+        return {"tokenize": cps(seen[0]), "tokenize_result": cps(seen[1]), "again": cps(seen[2]),
+                "out": cps(res.string), "forms": forms(lat), "forms_result": forms(lat2)}
+
     def impl(self, case):
         if case["kind"] == "yyx":
+            self.model_request(case)
             return self.impl_yyx(case)
         if case["kind"] == "yy":
             lat = YYTokenLattice([mk_token(t) for t in case["tokens"]])
@@ -467,16 +545,20 @@ class C14(G.C13):
                      and [G.jytok(t) for t in YYTokenLattice.from_string(str(back)).tokens] == first)
             self._yy_prev = lat
             return {"yy": cps(s), "reparsed": first, "same": back == lat, "again": again}
+        if case["kind"] == "tokpat":
+            return self.impl_tokpat(case)
         if case["kind"] == "yyparse":
+            self.model_request(case)
             try:
                 back = YYTokenLattice.from_string(uncps(case["s"]))
             except ValueError:
                 # e.g. paths "1-0": the regex reads two integers, the code splits on blanks and int() fails;
                 # malformed input, outside the property; the model answers the same (MT.valueError -> no list)
-                return {"reparsed": {"err": "unmodelled"}, "why": "ValueError"}
+                return {"reparsed": {"err": "unmodelled"}, "why": "ValueError", "xreparsed": {"err": "ValueError"}}
+            x = [jxtok(t) for t in back.tokens]
             if any(t.lrules != ["null"] or t.pos for t in back.tokens):
-                return {"reparsed": {"err": "unmodelled"}}
-            return {"reparsed": [G.jytok(t) for t in back.tokens]}
+                return {"reparsed": {"err": "unmodelled"}, "xreparsed": x}
+            return {"reparsed": [G.jytok(t) for t in back.tokens], "xreparsed": x}
         obs = self.full(case)
         self.model_request(case)          # built now, while the observation is at hand
         if "err" in obs:
@@ -487,9 +569,68 @@ class C14(G.C13):
         return {"load": [None if x is None else {"tracked": x["tracked"], "untracked": x["untracked"]} for x in obs["load"]],
                 "runs": runs}
 
+    X_NOOP = {"op": "yyparse", "s": []}      # keeps the case in the runner's comparison loop
+
+    def x_request(self, case):
+        """request for the C14-only driver"""
+        k = case["kind"]
+        if k == "tokpat":
+            return {"op": "tokpat", "arg": None if case["arg"] is None else cps(case["arg"]),
+                    "declared": None if case["declared"] is None else cps(case["declared"])}
+        if k == "yyparse":
+            return {"op": "yyxparse", "s": case["s"]}
+        toks = []
+        for t in case["tokens"]:
+            d = {kk: t[kk] for kk in ("id", "start", "end", "lnk", "paths", "form", "surface", "ipos")}
+            d["lrules"] = [cps(x) for x in t["lrules"]]
+            d["pos"] = [[cps(a), cps(format(b, ".4f"))] for a, b in t["pos"]]
+            toks.append(d)
+        return {"op": "yyx", "tokens": toks}
+
+    def x_note(self, case):
+        if not hasattr(self, "_xreq"):
+            self._xreq, self._xans = {}, {}
+        key = json.dumps(case, sort_keys=True)
+        if key not in self._xreq:
+            self._xreq[key] = self.x_request(case)
+
+    def x_answer(self, case):
+        """answers of the C14-only driver: all pending requests go through ONE driver process, started when the
+        first answer is needed (the runner has collected every request by then)"""
+        from .common import leanrun
+        self.x_note(case)
+        key = json.dumps(case, sort_keys=True)
+        if key not in self._xans:
+            todo = [k for k in self._xreq if k not in self._xans]
+            answers = leanrun.run_driver(self.xdriver, [self._xreq[k] for k in todo])
+            for k, a in zip(todo, answers):
+                self._xans[k] = a
+            self._xruns = getattr(self, "_xruns", 0) + 1
+        return self._xans[key]
+
+    @staticmethod
+    def x_tokens(ans):
+        """model tokens -> the implementation's shape: probabilities through Python's float (the parameter);
+        a text float() rejects is the ValueError of from_string"""
+        if not isinstance(ans, list):
+            return ans
+        out = []
+        for t in ans:
+            pos = []
+            for tag, txt in t["pos"]:
+                v = xfloat(uncps(txt))
+                if v is None:
+                    return {"err": "ValueError"}
+                pos.append([uncps(tag), v])
+            out.append(dict(t, lrules=[uncps(x) for x in t["lrules"]], pos=pos))
+        return out
+
     def model_request(self, case):
-        if case["kind"] == "yyx":
-            return None
+        if case["kind"] in ("yyx", "tokpat"):
+            self.x_note(case)
+            return self.X_NOOP
+        if case["kind"] == "yyparse":
+            self.x_note(case)
         if case["kind"] == "yy":
             return {"op": "yy", "tokens": case["tokens"]}
         if case["kind"] == "yyparse":
@@ -500,12 +641,25 @@ class C14(G.C13):
         return super().build_request(case)
 
     def model_compare(self, case, expected, answer):
+        if case["kind"] == "tokpat":
+            a = self.x_answer(case)
+            e = {"tokenize": expected["tokenize"], "tokenize_result": expected["tokenize_result"]}
+            return None if a == e else {"expected_from_impl": e, "model": a}
+        if case["kind"] == "yyx":
+            a = self.x_answer(case)
+            got = {"yy": a.get("yy"), "reparsed": self.x_tokens(a.get("reparsed"))}
+            e = {"yy": expected["yy"], "reparsed": expected["reparsed"]}
+            return None if got == e else {"expected_from_impl": e, "model": got}
+        if case["kind"] == "yyparse":
+            a = self.x_tokens(self.x_answer(case).get("reparsed"))
+            if a != expected.get("xreparsed"):
+                return {"extended parser": True, "expected_from_impl": expected.get("xreparsed"), "model": a}
         if case["kind"] in ("yy", "yyparse"):
             m_un = isinstance(answer, dict) and isinstance(answer.get("reparsed"), dict)
             i_un = isinstance(expected.get("reparsed"), dict)
             if case["kind"] == "yyparse" and m_un and i_un:
-                self.note_skip("yyparse: token with lrules != ['null'] or pos tags (outside the YY parser model) or "
-                               "ValueError on glued paths, both sides")
+                self.note_skip("yyparse: token with lrules != ['null'] or pos tags or ValueError: outside the narrow parser "
+                               "model of the shared driver (compared with the full-width model of the C14 driver instead)")
                 return None
             if m_un or i_un:
                 # one-sided: the model must say exactly when the real parser meets a token outside its shapes
@@ -522,6 +676,22 @@ class C14(G.C13):
         def fail(clause, detail):
             fails.append({"clause": clause, "detail": detail})
         if case["kind"] == "yyparse":
+            return fails
+        if case["kind"] == "tokpat":
+            from delphin import repp as R
+            want = case["arg"] if case["arg"] is not None else (case["declared"] if case["declared"] is not None
+                                                                 else R.DEFAULT_TOKENIZER)
+            want2 = case["arg"] if case["arg"] is not None else R.DEFAULT_TOKENIZER
+            dflt = case["declared"] if case["declared"] is not None else R.DEFAULT_TOKENIZER
+            out = uncps(res["out"])
+            if uncps(res["tokenize"]) != want or res["forms"] != [out[a:b] for a, b in pieces(want, out)]:
+                fail("tokenize(s, pattern): the explicit pattern must win, else the module's ':' line, else the default",
+                     repr((case["declared"], case["arg"], uncps(res["tokenize"]), res["forms"])))
+            if uncps(res["tokenize_result"]) != want2 or res["forms_result"] != [out[a:b] for a, b in pieces(want2, out)]:
+                fail("tokenize_result(result, pattern): the explicit pattern, else the default", repr((case, res["forms_result"])))
+            if uncps(res["again"]) != dflt:
+                fail("tokenize(s) after a call with an explicit pattern does not return to the declared / default pattern",
+                     repr((case["declared"], case["arg"], uncps(res["again"]))))
             return fails
         if case["kind"] == "yyx":
             want = [dict(t, pos=[list(x) for x in t["pos"]]) for t in case["tokens"]]
@@ -747,10 +917,14 @@ class C14(G.C13):
     def extra_evidence(self):
         ev = super().extra_evidence()
         ev["from_config_checked"] = getattr(self, "_nconfig", 0)
+        ev["c14_driver_requests"] = len(getattr(self, "_xans", {}))
         ev["tokenize_active_interleaved"] = getattr(self, "_nactive", 0)
         return ev
 
     def stats(self, case, res, counters):
+        if case["kind"] == "tokpat":
+            counters["kind:tokpat"] = counters.get("kind:tokpat", 0) + 1
+            return
         if case["kind"] == "yyx":
             counters["kind:yyx"] = counters.get("kind:yyx", 0) + 1
             counters["yyx:tokens"] = counters.get("yyx:tokens", 0) + len(case["tokens"])
@@ -804,6 +978,8 @@ class C14(G.C13):
                 counters["tokens"] = counters.get("tokens", 0) + len(run["tokens"])
 
     def nontrivial_key(self, case, res):
+        if case["kind"] == "tokpat":
+            return json.dumps(case, sort_keys=True)
         if case["kind"] == "yyx":
             return json.dumps(case, sort_keys=True)
         if case["kind"] == "yy":
@@ -813,7 +989,7 @@ class C14(G.C13):
         return super().nontrivial_key(case, res)
 
     def shrink(self, case, still_fails):
-        if case["kind"] in ("yy", "yyparse", "yyx"):
+        if case["kind"] in ("yy", "yyparse", "yyx", "tokpat"):
             if case["kind"] in ("yy", "yyx"):
                 for t in list(case["tokens"]):
                     c = dict(case, tokens=[x for x in case["tokens"] if x is not t])
